@@ -593,6 +593,9 @@ func (c *ClusterInfo) GetNSQDStats(producers Producers,
 			lock.Lock()
 			defer lock.Unlock()
 			for _, topic := range resp.Topics {
+				if topic == nil {
+					continue
+				}
 				topic.Node = addr
 				topic.Hostname = p.Hostname
 				topic.MemoryDepth = topic.Depth - topic.BackendDepth
@@ -603,6 +606,9 @@ func (c *ClusterInfo) GetNSQDStats(producers Producers,
 				topicStatsList = append(topicStatsList, topic)
 
 				for _, channel := range topic.Channels {
+					if channel == nil {
+						continue
+					}
 					channel.Node = addr
 					channel.Hostname = p.Hostname
 					channel.TopicName = topic.TopicName
@@ -621,11 +627,17 @@ func (c *ClusterInfo) GetNSQDStats(producers Producers,
 						}
 						channelStatsMap[key] = channelStats
 					}
+					clients := channel.Clients[:0]
 					for _, c := range channel.Clients {
+						if c == nil {
+							continue
+						}
 						c.Node = addr
 						c.NodeTopologyRegion = p.TopologyRegion
 						c.NodeTopologyZone = p.TopologyZone
+						clients = append(clients, c)
 					}
+					channel.Clients = clients
 					channelStats.Add(channel)
 				}
 			}
